@@ -214,7 +214,9 @@ IPow(v, e) == IF e = 0 THEN <<1, 0>> ELSE CMul(v, IPow(v, e - 1))
 Pow(a, e) ==
     IF a.t # "mat" \/ e.t # "num" THEN Err("TypeOrValue")
     ELSE LET tc == IF a.m.tc = "z" \/ e.x.tc = "z" THEN "z" ELSE "d" IN
-         IF (e.x.v[1] < 0 \/ e.x.tc = "z") /\ \E p \in 1..Size(a.m) : IsCZ(a.m.buf[p]) THEN [k |-> "unspec"]     \* a negative or complex power of zero: not documented
+         \* zero has no negative and no properly complex power: the model has no answer, an exception is required
+         IF (e.x.v[1] < 0 \/ e.x.v[2] # 0) /\ \E p \in 1..Size(a.m) : IsCZ(a.m.buf[p]) THEN Err("AnyErr")
+         ELSE IF e.x.tc = "z" /\ IsCZ(e.x.v) /\ \E p \in 1..Size(a.m) : IsCZ(a.m.buf[p]) THEN [k |-> "unspec"]      \* 0 ** 0j
          ELSE IF tc = "z" \/ e.x.v[1] < 0 THEN Cut(tc, a.m.nr, a.m.nc)            \* complex powers go through exp / log: not exact
          ELSE [k |-> "mat", m |-> Mat(tc, a.m.nr, a.m.nc, [p \in 1..Size(a.m) |-> IPow(a.m.buf[p], e.x.v[1])])]
 \* abs(A): integer stays integer, real stays real, complex gives the real matrix of moduli
@@ -252,6 +254,10 @@ EwMaxMin(a, b, ismax) ==
               IF sh[1] < 0 THEN Err("TypeOrValue")
               ELSE LET x == Bcast(a, sh[1], sh[2])  y == Bcast(b, sh[1], sh[2]) IN
                    [k |-> "mat", m |-> Mat(MaxTc(OTc(a), OTc(b)), sh[1], sh[2], [p \in 1..(sh[1] * sh[2]) |-> pick(x[p], y[p])])]
+\* one argument (a matrix, or a list holding one matrix): mul gives a copy - a NEW object -, max / min of a list holding one matrix too
+Ew1(f, form, a) ==
+    IF f = "mul" \/ form = "list" THEN (IF f # "mul" /\ a.tc = "z" THEN [k |-> "unspec"] ELSE [k |-> "mat", m |-> a])
+    ELSE [k |-> "unspec"]
 \* the built-in max / min of a dense matrix: the largest / smallest element (complex numbers are not ordered, an empty matrix has none)
 RECURSIVE Extreme(_, _)
 Extreme(s, ismax) == IF Len(s) = 1 THEN s[1]
@@ -327,6 +333,7 @@ Do(op) ==
                                         ELSE Err("TypeOrValue"), op.src)
          [] op.k = "alias"    -> /\ env' = [env EXCEPT ![op.dst] = env[op.src]] /\ UNCHANGED <<heap, nextid>> /\ out' = NoOut
          [] op.k = "abs"      -> Produce(AbsM(heap[env[op.src]]), op.dst)
+         [] op.k = "ew1"      -> Produce(Ew1(op.f, op.form, heap[env[op.src]]), op.dst)
          [] op.k = "max1"     -> /\ UNCHANGED <<heap, env, nextid>> /\ out' = MaxMin1(heap[env[op.src]], TRUE)
          [] op.k = "min1"     -> /\ UNCHANGED <<heap, env, nextid>> /\ out' = MaxMin1(heap[env[op.src]], FALSE)
          [] op.k = "bool"     -> /\ UNCHANGED <<heap, env, nextid>>          \* False for a zero matrix, True otherwise
